@@ -186,7 +186,7 @@ func GenReopen(r *rand.Rand, idx int) ReopenDesc {
 
 type reClient interface {
 	open() error
-	drain(max int) (got []byte, reads int, err error)
+	drain(max int, kept *keptReads) (got []byte, reads int, err error)
 	close()
 }
 
@@ -197,7 +197,7 @@ func (c trClient) close() {
 	defer func() { recover() }()
 	c.tr.Close(false)
 }
-func (c trClient) drain(max int) (got []byte, reads int, err error) {
+func (c trClient) drain(max int, kept *keptReads) (got []byte, reads int, err error) {
 	defer func() {
 		if x := recover(); x != nil {
 			err = fmt.Errorf("panic in Read: %v", x)
@@ -206,6 +206,7 @@ func (c trClient) drain(max int) (got []byte, reads int, err error) {
 	for i := 0; ; i++ {
 		b, e := c.tr.Read()
 		reads++
+		kept.add(b) // retained without copying; rechecked after later reads, Close and later openings
 		got = append(got, b...)
 		if e != nil {
 			return got, reads, e
@@ -229,7 +230,7 @@ func (c drvClient) close() {
 }
 
 // drain: everything the channel's read loop queued until it went away on the server's half-close.
-func (c drvClient) drain(max int) (got []byte, reads int, err error) {
+func (c drvClient) drain(max int, _ *keptReads) (got []byte, reads int, err error) {
 	deadline := time.Now().Add(20 * time.Second)
 	for {
 		b, e := c.d.Channel.Read()
@@ -252,6 +253,8 @@ func (c drvClient) drain(max int) (got []byte, reads int, err error) {
 }
 
 func stripCR(b []byte) []byte { return bytes.ReplaceAll(b, []byte("\r"), nil) }
+
+const chunkChangedKey = "c15/delivered-chunk-changed-after-return"
 
 // RunReopen executes one session; early=true if the only complaint equals a window that ended early.
 func runReopenOnce(d ReopenDesc) (res mon.Result, early bool) {
@@ -297,6 +300,7 @@ func runReopenOnce(d ReopenDesc) (res mon.Result, early bool) {
 	staleFrom := ""
 	judgedLater, dirtyEarlier := 0, 0
 	var seq atomic.Int64
+	var kept keptReads // all slices returned by reads of this session, over all openings
 	norm := func(b []byte) []byte {
 		if d.Via == "driver" {
 			return stripCR(b)
@@ -333,7 +337,7 @@ func runReopenOnce(d ReopenDesc) (res mon.Result, early bool) {
 			dirtyEarlier++
 		}
 		viol := func(key, detail string) (mon.Result, bool) {
-			if k > 0 {
+			if k > 0 && key != chunkChangedKey {
 				key = "c15/reopen-" + strings.TrimPrefix(key, "c15/")
 			}
 			return mon.Result{Verdict: mon.Violated, Key: key, NonTrivial: true, Obs: obs, Tags: dedupe(tags), Events: ev,
@@ -356,7 +360,7 @@ func runReopenOnce(d ReopenDesc) (res mon.Result, early bool) {
 		var readErr error
 		if op.Drain {
 			var n int
-			got, n, readErr = cl.drain(2*(len(wire)+len(tail)+len(stale)) + 1000)
+			got, n, readErr = cl.drain(2*(len(wire)+len(tail)+len(stale))+1000, &kept)
 			obs["reads"] += int64(n)
 		}
 		if op.Close {
@@ -461,6 +465,12 @@ func runReopenOnce(d ReopenDesc) (res mon.Result, early bool) {
 				obs["reopen_later_openings_judged"]++
 				obs["reopen_later_requests_answered"] += int64(len(ref.reqs))
 			}
+		}
+		// every slice any read of this session returned so far must still hold what it held then
+		if n, complaint := kept.recheck(); complaint != "" {
+			return viol(chunkChangedKey, complaint)
+		} else {
+			obs["chunks_rechecked_after_later_reads"] = int64(n)
 		}
 		// what the library may still hold for the next opening (reference view)
 		if op.Drain {
